@@ -48,7 +48,16 @@ UNARY(reshape, view::reshape(a, ax2(p)), fn::reshape[ax2(p)])
 UNARY(flip, view::flip(a, p[0]), fn::flip[p[0]])
 UNARY(slice, view::slice(a, sl3(p), sl2(p+3)), fn::slice[sl3(p)][sl2(p+3)])
 UNARY(invert, view::invert(a), fn::invert)   // (square/multiply make the equivalence check a multiplier-equivalence problem: no verdict in 300 s)
-UNARY(sum, view::sum(a, p[0]), fn::sum[p[0]])
+// the same with one variant per kernel for operations whose four variants in one query do not return (reductions)
+#define UNARYV(NAME, VAR, VIEW, ...) KERNEL int K(k_fn_##NAME##_##VAR)(const size_t* shape, const unsigned* data, const int* p, OUTS, int* same){ \
+  a2_t a; if (!mk2(a,shape,data)) return -1; \
+  auto mv = VIEW; V(0, mv); if (!nm::has_value(mv)) return 0; const auto& v = nm::unwrap(mv); \
+  auto f = fn::get_function_composition(v); const auto& ops = fn::get_function_operands(v); \
+  V(1, __VA_ARGS__); same[0] = (nm::get<0>(nm::unwrap(ops)) == &a); return 2; }
+UNARYV(sum, 1, view::sum(a, p[0]), fn::sum[p[0]](a))
+UNARYV(sum, 2, view::sum(a, p[0]), fn::reduce_add[p[0]](a))
+UNARYV(sum, 3, view::sum(a, p[0]), f(a))
+UNARYV(sum, 4, view::sum(a, p[0]), fn::apply(f, ops))
 // binary functor, one variant per kernel (all six in one query ran out of memory): 1 all at once, 2 curried one at a time,
 // 3 extracted composition all at once, 4 extracted composition curried, 5 fn::apply on the extracted operands;
 // same[] = extracted operands are the addresses of the leaves, in order
@@ -61,3 +70,46 @@ UNARY(sum, view::sum(a, p[0]), fn::sum[p[0]])
 #define BINARY_ALL(NAME) BINARY(NAME, 1, fn::NAME(a, b)) BINARY(NAME, 2, fn::NAME(a)(b)) BINARY(NAME, 3, f(a, b)) BINARY(NAME, 4, f(a)(b)) BINARY(NAME, 5, fn::apply(f, ops))
 BINARY_ALL(add)
 BINARY_ALL(subtract)
+
+// ---- composition ----
+// (f*g)(a) == f(g(a)) == the nested view == the composition extracted from the nested view
+KERNEL int K(k_comp2)(const size_t* shape, const unsigned* data, const int* p, OUTS, int* same){
+  a2_t a; if (!mk2(a,shape,data)) return -1;
+  auto g = fn::transpose[ax2(p)]; auto f = fn::flip[p[2]];
+  auto mv = view::flip(view::transpose(a, ax2(p)), p[2]); V(0, mv); V(1, (f * g)(a)); V(2, f(g(a)));
+  if (!nm::has_value(mv)) return 0; const auto& v = nm::unwrap(mv);
+  auto c = fn::get_function_composition(v); const auto& ops = fn::get_function_operands(v);
+  V(3, c(a)); V(4, fn::apply(c, ops)); same[0] = (nm::get<0>(nm::unwrap(ops)) == &a); return 5; }
+// both parenthesisations of a 3-functor chain
+KERNEL int K(k_comp3)(const size_t* shape, const unsigned* data, const int* p, OUTS, int* same){
+  a2_t a; if (!mk2(a,shape,data)) return -1;
+  auto h = fn::transpose[ax2(p)]; auto g = fn::flip[p[2]]; auto f = fn::invert;
+  auto mv = view::invert(view::flip(view::transpose(a, ax2(p)), p[2])); V(0, mv);
+  V(1, (f * (g * h))(a)); V(2, ((f * g) * h)(a)); V(3, (f * g * h)(a)); V(4, f(g(h(a))));
+  if (!nm::has_value(mv)) return 0; const auto& v = nm::unwrap(mv);
+  auto c = fn::get_function_composition(v); const auto& ops = fn::get_function_operands(v);
+  V(5, c(a)); same[0] = (nm::get<0>(nm::unwrap(ops)) == &a); return 6; }
+// a reduction as the outer functor of a composition
+KERNEL int K(k_comp_sum)(const size_t* shape, const unsigned* data, const int* p, OUTS, int* same){
+  a2_t a; if (!mk2(a,shape,data)) return -1;
+  auto mv = view::sum(view::invert(a), p[0]); V(0, mv); V(1, (fn::sum[p[0]] * fn::invert)(a));
+  if (!nm::has_value(mv)) return 0; const auto& v = nm::unwrap(mv);
+  const auto& ops = fn::get_function_operands(v); same[0] = (nm::get<0>(nm::unwrap(ops)) == &a); return 2; }
+// a binary functor inside a composition: as the inner functor (both operands consumed by it) and as the outer functor
+// (the inner unary functor consumes the first operand, the remaining operand is passed on)
+#define COMPB(NAME, VIEW, ...) KERNEL int K(k_compb_##NAME)(const size_t* shape, const unsigned* da, const unsigned* db, OUTS, int* same){ \
+  a2_t a, b; if (!mk2(a,shape,da) || !mk2(b,shape,db)) return -1; \
+  auto mv = VIEW; V(0, mv); V(1, __VA_ARGS__); if (!nm::has_value(mv)) return 0; const auto& v = nm::unwrap(mv); \
+  const auto& ops = fn::get_function_operands(v); \
+  same[0] = (nm::get<0>(nm::unwrap(ops)) == &a); same[1] = (nm::get<1>(nm::unwrap(ops)) == &b); return 2; }
+COMPB(inner, view::invert(view::subtract(a, b)), (fn::invert * fn::subtract)(a, b))
+COMPB(inner_curry, view::invert(view::subtract(a, b)), (fn::invert * fn::subtract)(a)(b))
+COMPB(outer, view::subtract(view::invert(a), b), (fn::subtract * fn::invert)(a, b))
+COMPB(extract, view::subtract(view::invert(a), b), fn::get_function_composition(nm::unwrap(mv))(a, b))
+// extraction from a depth-2 view with a repeated leaf: (a+b)-a has three operand occurrences; only the addresses are observed
+KERNEL int K(k_extract_repeated)(const size_t* shape, const unsigned* da, const unsigned* db, int* same){
+  a2_t a, b; if (!mk2(a,shape,da) || !mk2(b,shape,db)) return -1;
+  auto mv = view::subtract(view::add(a, b), a); if (!nm::has_value(mv)) return 0; const auto& v = nm::unwrap(mv);
+  const auto& mops = fn::get_function_operands(v); const auto& ops = nm::unwrap(mops);
+  same[0] = (int)meta::len_v<meta::remove_cvref_t<decltype(ops)>>;
+  same[1] = (nm::get<0>(ops) == &a); same[2] = (nm::get<1>(ops) == &b); same[3] = (nm::get<2>(ops) == &a); return 1; }
